@@ -60,7 +60,9 @@ const specJSON = `{"openapi":"3.0.3","info":{"title":"t","version":"1"},"paths":
  "responses":{
   "200":{"description":"ok","content":{"application/json":{"schema":{"type":"object","required":["ok"],"properties":{"ok":{"type":"boolean"},"m":{"type":"string"}},"additionalProperties":false}}}},
   "201":{"description":"created"},
-  "418":{"description":"teapot","headers":{"X-Tea":{"required":true,"schema":{"type":"string"}}}}}}}}}`
+  "418":{"description":"teapot","headers":{"X-Tea":{"required":true,"schema":{"type":"string"}}}}}}},
+ "/sec":{"post":{"security":[{"key":[]}],"responses":{"200":{"description":"ok"}}}}},
+ "components":{"securitySchemes":{"key":{"type":"apiKey","name":"X-Key","in":"header"}}}}`
 
 var (
 	doc     *openapi3.T
@@ -99,6 +101,12 @@ func request(kind string) *http.Request {
 		return httptest.NewRequest("POST", "http://localhost/nowhere?q=1", nil)
 	case "invalid":
 		return httptest.NewRequest("POST", "http://localhost/r?q=notanint", nil)
+	case "invalid-secured":
+		// a secured operation, and a validator that was given no authentication callback: request
+		// validation fails ("missing AuthenticationFunc"), whatever the request carries
+		r := httptest.NewRequest("POST", "http://localhost/sec", nil)
+		r.Header.Set("X-Key", "k")
+		return r
 	case "invalid-pl":
 		// the operation declares nothing itself: what is violated is declared on the path item
 		return httptest.NewRequest("POST", "http://localhost/pl/notanint", nil)
@@ -476,10 +484,14 @@ func gen(t *rapid.T) Case {
 		}
 		s = append(s, a)
 	}
-	return Case{Request: rapid.SampledFrom([]string{"valid", "valid", "valid", "invalid", "unroutable", "valid-pl", "invalid-pl", "invalid-pl-header"}).Draw(t, "request"), Script: s,
+	c := Case{Request: rapid.SampledFrom([]string{"valid", "valid", "valid", "invalid", "unroutable", "valid-pl", "invalid-pl", "invalid-pl-header", "invalid-secured"}).Draw(t, "request"), Script: s,
 		Strict: rapid.Bool().Draw(t, "strict"), OnErr: rapid.Bool().Draw(t, "onerr"), Front: rapid.SampledFrom([]string{"validator", "validator", "validator", "handler-serve", "handler-middleware"}).Draw(t, "front"),
 		Prelude: rapid.SampledFrom([]string{"", "", "head", "invalid", "unroutable", "bad-response", "good-response"}).Draw(t, "prelude"),
 		VOpts:   rapid.SampledFrom([]int{0, 0, 1, 2, 3, 4, 5, 7}).Draw(t, "vopts")}
+	if c.Request == "invalid-secured" {
+		c.Front = "validator" // the older ValidationHandler installs a callback that accepts everything
+	}
+	return c
 }
 
 var _ = jv.Canon
